@@ -59,6 +59,9 @@ pub struct Case {
     pub fault: Fault,
     pub reads: ReadPlan,
     pub rereads: Vec<usize>,
+    /// see c01::neutral_headers: further header fields, incl. codings the client does not decode and media types
+    #[serde(default)]
+    pub headers: u8,
 }
 
 pub struct C02;
@@ -366,9 +369,9 @@ or >=1 read issued after the first error; distinct by hash of the serialised cas
             seg(),
             fault_strategy(),
             gen::read_plan_with_text_reader(),
-            proptest::collection::vec(gen::read_size(), 0..6),
+            (proptest::collection::vec(gen::read_size(), 0..6), prop_oneof![1 => Just(0u8), 1 => 0u8..12]),
         )
-            .prop_map(|((payload, framing), hdr_style, seg, fault, reads, rereads)| Case {
+            .prop_map(|((payload, framing), hdr_style, seg, fault, reads, (rereads, headers))| Case {
                 payload,
                 framing,
                 hdr_style,
@@ -376,6 +379,7 @@ or >=1 read issued after the first error; distinct by hash of the serialised cas
                 fault,
                 reads,
                 rereads,
+                headers,
             })
             .boxed()
     }
@@ -390,7 +394,8 @@ or >=1 read issued after the first error; distinct by hash of the serialised cas
             }
             ctx.label("text-reader");
         }
-        let built = build_response(200, &[], &case.framing, case.hdr_style, &payload);
+        let built = build_response(200, &crate::props::c01::neutral_headers(case.headers), &case.framing, case.hdr_style, &payload);
+        ctx.label_if(case.headers % 12 >= 5, "describing-headers(unknown coding / media type)");
         let wire = &built.wire;
         let sub = |mode| Sub {
             payload: &payload,
